@@ -160,6 +160,26 @@ def c14_scenarios(scripts, seed, quick, call, scn):
                   call(1, op="Publish", topic=T1, msgs=[{"p": "pb"}, {"p": "pc"}]),
                   {"do": "waithttp", "n": 20, "ms": 1500}, {"do": "advance", "ms": 200}]
         finish(scn("c14-recreate-%d" % k, steps, seed=seed + k))
+    # requests that are REFUSED while a push subscription of that name is live (a duplicate create, a
+    # create on a topic of another project, with and without push configuration of their own) leave
+    # its push delivery alone: the message the endpoint refused is POSTed again and accepted
+    for k in range(3 if quick else 6):
+        TP = "projects/p2/topics/t3"
+        refused = [call(2, op="CreateSub", name=S1, topic=T1, ack=10),
+                   call(2, op="CreateSub", name=S1, topic=T1, ack=20, push="$EP"),
+                   call(2, op="CreateSub", name=S1, topic=TP, ack=10, push="$EP"),
+                   call(2, op="CreateSub", name=S1, topic="projects/p1/topics/none", ack=10, push="$EP")]
+        steps = [{"do": "endpoint", "script": {"pa": [500, 500, 500, 200]}, "default": [200]},
+                 call(1, op="CreateTopic", name=T1), call(1, op="CreateTopic", name=TP),
+                 call(1, op="CreateSub", name=S1, topic=T1, ack=10, push="$EP"),
+                 call(1, op="Publish", topic=T1, msgs=[{"p": "pa"}]),
+                 {"do": "waithttp", "n": 1, "ms": 4000}]
+        steps += refused[k % 4:] + refused[:k % 4]
+        steps += [call(1, op="Publish", topic=T1, msgs=[{"p": "pb"}]),
+                  {"do": "waithttp", "n": 5, "ms": 4000}, {"do": "advance", "ms": 150}]
+        s2 = scn("c14-refused-%d" % k, steps, seed=seed + k)
+        s2["meta"]["proj"][TP] = "p2"
+        finish(s2)
     # an endpoint on which nothing listens, and an unsupported endpoint
     steps = [{"do": "endpoint", "script": {}, "default": [200]},
              call(1, op="CreateTopic", name=T1), call(1, op="CreateSub", name=S1, topic=T1, ack=10, push="$DEAD"),
